@@ -97,7 +97,7 @@ Proof. split; reflexivity. Qed.
    from the current source on every run (Generated/Kernels.v); each tie states that the translated
    function equals the model definition used above, on the whole range of the Go types
    (Generated/KernelTie.v; `True` for a kernel the translator reports as not translated). ---- *)
-From BS Require Import Generated.KernelTie Proofs.KernelEquivM.
+From BS Require Import Generated.KernelTie Proofs.KTie_eval_minmax.
 
 Theorem C01_kernel_tie_eval_minmax : tie_eval_minmax.
 Proof. exact k_eval_minmax_tie. Qed.
